@@ -79,12 +79,26 @@ def c05_pred(case, trace):
     rearm = [False] * nl      # another non-transient error was injected since: the deadline may have moved
     n_other = [0] * nl        # non-transient errors injected so far (top level or in a yield schedule)
     n_back = [0] * nl         # back-off episodes seen
+    last_cmd = None           # last Pause/Resume issued (top level), None once that is uncertain (commands inside a yield schedule, Stop)
+    certain = True
     for k, sn in enumerate(snaps):
         op = ops[k] if k < len(ops) else "?"
         if sn.bad or sn.err:
             if k < nf:
                 return "op %d (%s): %s" % (k, op, sn.bad or sn.err)
             break
+        # (f) commands take effect in the order they were issued: once the waker queue is drained the pause flag is that of the
+        #     last Pause/Resume issued (repeated and unmatched commands are idempotent)
+        if "{" in op and any(c in "PRS" for c in cmds_in(op)):
+            certain = False
+        elif op in ("P", "R"):
+            last_cmd = op
+        elif op == "S":
+            certain = False
+        if certain and last_cmd is not None and sn.wqlen == 0 and not sn.stopped and k < nf:
+            if sn.paused != (last_cmd == "P"):
+                return ("op %d (%s): the waker queue is drained, the last command issued was %s but the accept loop is %s"
+                        % (k, op, "Pause" if last_cmd == "P" else "Resume", "paused" if sn.paused else "not paused"))
         if op[0] == "+":
             now += int(op[1:])
         for e in env_ops_of(op):
@@ -152,6 +166,8 @@ def finding_key(case, impl, model):
         return "listener-unreachable"
     if "while paused" in r:
         return "dispatch-while-paused"
+    if "last command issued" in r:
+        return "command-order"
     if "never dispatched" in r or "still in back-off" in r or "not armed" in r or "oversleep" in r:
         return "stranded"
     if "per-connection error" in r:
